@@ -366,6 +366,14 @@ func enumC15(tier string) []Plan {
 						p := Plan{Prop: "C15", Seed: uint64(0xC15000 + n), Cfg: cfg, Conns: []ConnSpec{{Port: port, Proto: proto}},
 							Steps: []Step{{Pipe: ops}}, X: map[string]int64{"cut": int64(cut)}}
 						out = append(out, p)
+						if cut == 0 {
+							// the connection is reset (not closed in an orderly way) before the
+							// client has sent anything: the first read fails with ECONNRESET, not EOF
+							q := p.Clone()
+							q.Seed += 1 << 42
+							q.X["silent"] = 1
+							out = append(out, q)
+						}
 						// the same cut with the client closing in the same instant as it sends
 						// (replies then meet a dead socket): EPIPE mode for every such cut, silent
 						// mode where the prefix ends with a complete request
@@ -469,7 +477,7 @@ func genC15(seed uint64, tier string) Plan {
 func init() {
 	register(&Prop{
 		ID: "C15", Gen: genC15, Exec: execC15, Enumerate: enumC15, Level: "fault_enumeration",
-		Rule:       "fault = the client closes its connection after exactly n bytes of its request stream. Enumerated part: representative streams (each command, a large set, pipelines, quiet batches, quiet sets, quit alone / after a miss / after a quiet set, quiet quit; 12 text + 17 binary) x 12 deployments (L1-only / L1L2 / batch port, direct or chunked per-connection handlers, with and without the locking wrapper) x every prefix length n = 0..len (quick: every n for a rotating quarter of the pairs, stride 7 plus both ends for the rest; thorough: every n), each cut also in the variant where the client sends and closes in the same instant so that rend's replies meet a dead socket (EPIPE, and at request ends also the silent write mode). Selected cuts (both ends, every 23rd / thorough every 5th byte) also with a second client that connected to the same port while the first was idle: it must keep its backend connections, still be served after the first client left, and release its own when it leaves in turn. Read-only streams (single and multi-key gets, gat) also with the keys stored in L2 only (a 40-byte and a 5000-byte value, evicted from L1), so that the reads go through both tiers when the client leaves, and on the batch port with the keys hot in L1 (stored through the main port). Multi-key reads that are sent completely also run with a second fault in the same request: L1 refuses the victim's backend request #0..3 (out of memory) while the client leaves, keys hot in L1 or in L2 only. Seeded part: random pipelines with a random cut, half of them with the second client, half with the keys a, bb in L2 only. After quiescence: rend closed the client socket, every backend connection dialled for that client is closed, the goroutine count is back to the pre-connection baseline, every key lock acquired was released, no pooled protocol object was handed back twice (poisoning pools), and a fresh client is served on the same keys. Every case is non-trivial (a fault is injected in each); distinct = distinct plan hash",
+		Rule:       "fault = the client closes its connection after exactly n bytes of its request stream. Enumerated part: representative streams (each command, a large set, pipelines, quiet batches, quiet sets, quit alone / after a miss / after a quiet set, quiet quit; 12 text + 17 binary) x 12 deployments (L1-only / L1L2 / batch port, direct or chunked per-connection handlers, with and without the locking wrapper) x every prefix length n = 0..len (n = 0 also as a connection reset: the first read fails with ECONNRESET instead of EOF) (quick: every n for a rotating quarter of the pairs, stride 7 plus both ends for the rest; thorough: every n), each cut also in the variant where the client sends and closes in the same instant so that rend's replies meet a dead socket (EPIPE, and at request ends also the silent write mode). Selected cuts (both ends, every 23rd / thorough every 5th byte) also with a second client that connected to the same port while the first was idle: it must keep its backend connections, still be served after the first client left, and release its own when it leaves in turn. Read-only streams (single and multi-key gets, gat) also with the keys stored in L2 only (a 40-byte and a 5000-byte value, evicted from L1), so that the reads go through both tiers when the client leaves, and on the batch port with the keys hot in L1 (stored through the main port). Multi-key reads that are sent completely also run with a second fault in the same request: L1 refuses the victim's backend request #0..3 (out of memory) while the client leaves, keys hot in L1 or in L2 only. Seeded part: random pipelines with a random cut, half of them with the second client, half with the keys a, bb in L2 only. After quiescence: rend closed the client socket, every backend connection dialled for that client is closed, the goroutine count is back to the pre-connection baseline, every key lock acquired was released, no pooled protocol object was handed back twice (poisoning pools), and a fresh client is served on the same keys. Every case is non-trivial (a fault is injected in each); distinct = distinct plan hash",
 		Real:       append(append([]string{}, realFullStack...), "handlers/memcached/chunked", "server/utils.go abort"),
 		Stub:       stubFullStack,
 		FaultKinds: []string{"client_close", "status"},
